@@ -197,3 +197,37 @@ PROPS["C14"] = {
     "level_text": "Bounded symbolic model checking of slicez against definitional oracles written in the harness: element values and all integer arguments are symbolic 64-bit values, so every duplicate pattern, every negative/oversized argument and every capacity around FlexSlice's growth/shrink thresholds is covered on some path and decided by the solver.",
     "level_note": "Trusted: go/ssa, gosym (witness-validated; append growth follows runtime.growslice incl. size classes), z3.",
 }
+
+# ------------------------------------------------------------------------------------------- C20
+c20 = "vh/c20."
+CG = {"QueryTimeoutMs": 4000, "FallbackTimeoutS": 90}
+PROPS["C20"] = {
+    "patterns": ["./c20"],
+    "level": "model_checking",
+    "quick": (
+        [J(c20 + "Base32RoundTrip")]
+        + [J(c20 + "ParseBase32Invalid", n=n) for n in (1, 2, 3)]
+        + [J(c20 + "ParseBase32Valid", n=n) for n in (0, 1, 3, 12)]
+        + [J(c20 + "Numerals", max=1000)]
+        + [J(c20 + "IdGen")]
+        + [J(c20 + "StrGen", k=1, maxn=3, samewidth=1), J(c20 + "StrGen", k=2, maxn=3, samewidth=1), J(c20 + "StrGen", k=5, maxn=2, wbits=6, samewidth=1),
+           J(c20 + "StrGen", k=2, maxn=1)]
+        + [J(c20 + "CountGen", cfg=CG, rules=1, maxparam=15, maxdiff=64), J(c20 + "CountGen", cfg=CG, rules=2, maxparam=7, maxdiff=20)]
+    ),
+    "thorough": (
+        [J(c20 + "Base32RoundTrip")]
+        + [J(c20 + "ParseBase32Invalid", n=n) for n in (1, 2, 3, 4, 5)]
+        + [J(c20 + "ParseBase32Valid", n=n) for n in (0, 1, 3, 12, 13)]
+        + [J(c20 + "Numerals", max=100000)]
+        + [J(c20 + "IdGen")]
+        + [J(c20 + "StrGen", k=k, maxn=3, wbits=9, samewidth=1) for k in (1, 2, 3, 4, 5, 8)]
+        + [J(c20 + "StrGen", k=2, maxn=2)]
+        + [J(c20 + "CountGen", cfg=CG, rules=1, maxparam=15, maxdiff=64), J(c20 + "CountGen", cfg=CG, rules=2, maxparam=15, maxdiff=64)]
+    ),
+    "bounds": {"quick": "Base32: every ID in [0, 2^63) (13 length paths); ParseBase32: inputs <= 3 bytes with one position holding any of the byte values outside the alphabet; IdGenerator: every int randBit, every random draw (crypto/rand and fallback branch), every elapsed time < 2^41 ms, two consecutive IDs; StrGenerator: character sets of 1, 2, 5 arbitrary runes of one UTF-8 width (all four widths) and n <= 3 (2 for 5 runes), plus mixed-width sets of 2 runes with n <= 1; random source = one arbitrary word < 2^6 then zero words; CountGenerator: 1 rule with parameters <= 15 / elapsed <= 64, 2 rules with parameters <= 7 / elapsed <= 20, arbitrary id hash",
+               "thorough": "StrGenerator sets up to 8 runes, random word < 2^9; CountGenerator 2 rules with parameters <= 15, elapsed <= 64"},
+    "outside": ["CountGenerator rule parameters above the bound (non-linear 64-bit arithmetic does not finish in the solver)", "random words >= 2^wbits in StrGenerator (more rejection patterns)", "randz.Id()/String() package-level wrappers (they only select the default generator)", "Base2/Base36/String for values >= the bound (they call strconv.FormatInt directly)"],
+    "assumptions": ["time.Since is an arbitrary non-decreasing count of elapsed milliseconds", "crypto/rand.Int returns an arbitrary value in [0, max) or an error", "math/rand draws are arbitrary in their documented range"],
+    "level_text": "Bounded symbolic model checking of randz: IDs, random draws, clock readings, random source words and rule parameters are symbolic, so every ID value, every byte offered to ParseBase32, every randBit setting and every elapsed time is covered by solver reasoning on each path.",
+    "level_note": "Trusted: go/ssa, gosym, z3 (with one-shot fallback for the non-linear CountGenerator queries); clock and randomness stubs as listed in assumptions.",
+}
